@@ -72,12 +72,23 @@ Definition geom_matches (meth : method) (g : geom) (o : geom_obs) : bool :=
 Definition sqrt_sign (n : nat) : Q :=
   let s := Nat.sqrt n in if Nat.eqb (s * s) n then qn s else qn s + (1 # 2).
 
+(* The flag valid[r] = (C[r,0,0] != 0) is decided by the code through float
+   tests `d == 0`; it is determined by exact arithmetic only when the bin has
+   no weight at all (then it is False) or when the Hankel matrix is
+   well-conditioned (then True); for N = 1 always.  With sqrt_sign only the
+   first case and N = 1 can be decided. *)
+Definition has_weight (px : list (pixel Q)) : bool := negb (Qeq_bool (moment Qops 0 px) 0).
+Definition gvalid_ok (N : nat) (px : list (pixel Q)) (obs : bool) : bool :=
+  if has_weight px then (if Nat.eqb N 1 then obs else true) else negb obs.
+
 Definition gcheck (c : gcase) : bool :=
   match precalc (gc_h c) (gc_w c) (gc_origin c) (gc_rmax c) (gc_order c) (gc_odd c), gc_expect c with
   | PValueError, GValueError => true
   | POk g, GOk o =>
     geom_matches (gc_meth c) g o
-    && bool_list_eqb (distr_valid Qops sqrt_sign (gc_meth c) g (gc_sin c) None) (o_valid o)
+    && list_all2 (fun r ob => gvalid_ok (g_N g) (pixels Qops sqrt_sign (gc_meth c) g
+                                              (QW Qops sqrt_sign g (gc_sin c) None) (fun _ _ => 0%Q) r) ob)
+                 (seq 0 (g_rmax g + 1)) (o_valid o)
   | _, _ => false
   end.
 
@@ -92,6 +103,7 @@ Record vcase := {
   vc_cos : list (list Q)       (* Results.cos(): [n][r] *)
 }.
 
+Local Open Scope Q_scope.
 Definition Qmax (a b : Q) : Q := if Qle_bool a b then b else a.
 
 (* magnitudes used for the comparison tolerance: the same cofactor formulas
@@ -99,29 +111,37 @@ Definition Qmax (a b : Q) : Q := if Qle_bool a b then b else a.
 Definition absmom (n : nat) (px : list (pixel Q)) : Q :=
   sum Qops (map (fun t => let '(_, x, q) := t in Qabs q * Qabs (cpow Qops x n)) px).
 
+Definition mom (px : list (pixel Q)) (k : nat) : Q := moment Qops k px.
+Definition mabs (px : list (pixel Q)) (k : nat) : Q := Qabs (moment Qops k px).
+Definition pabs (px : list (pixel Q)) (k : nat) : Q := absmom k px.
+
 Definition tol_rows (N : nat) (px : list (pixel Q)) : option (Q * list Q) :=
   (* (kd, [sum_j Mabs_ij pabs_j]) ; None when the matrix is singular *)
-  let m k := Qabs (moment Qops k px) in
-  let pa k := absmom k px in
+  let m := mabs px in let pa := pabs px in let p := mom px in
   match N with
-  | 1 => if Qeq_bool (m 0) 0 then None else Some (0, [pa 0 / m 0])
-  | 2 =>
-    let d := moment Qops 0 px * moment Qops 2 px - moment Qops 1 px * moment Qops 1 px in
+  | 1%nat => if Qeq_bool (mabs px 0) 0 then None else Some (0, [pabs px 0 / mabs px 0])
+  | 2%nat =>
+    let d := mom px 0 * mom px 2 - mom px 1 * mom px 1 in
     if Qeq_bool d 0 then None else
-    let T := m 0 * m 2 + m 1 * m 1 in
-    Some (T / Qabs d, [(m 2 * pa 0 + m 1 * pa 1) / Qabs d; (m 1 * pa 0 + m 0 * pa 1) / Qabs d])
-  | 3 =>
-    let p k := moment Qops k px in
-    let d := p 0 * (p 2 * p 4 - p 3 * p 3) + p 1 * (p 2 * p 3 - p 1 * p 4) + p 2 * (p 1 * p 3 - p 2 * p 2) in
+    let T := mabs px 0 * mabs px 2 + mabs px 1 * mabs px 1 in
+    Some (T / Qabs d, [(mabs px 2 * pabs px 0 + mabs px 1 * pabs px 1) / Qabs d;
+                       (mabs px 1 * pabs px 0 + mabs px 0 * pabs px 1) / Qabs d])
+  | 3%nat =>
+    let d := mom px 0 * (mom px 2 * mom px 4 - mom px 3 * mom px 3)
+             + mom px 1 * (mom px 2 * mom px 3 - mom px 1 * mom px 4)
+             + mom px 2 * (mom px 1 * mom px 3 - mom px 2 * mom px 2) in
     if Qeq_bool d 0 then None else
-    let A00 := m 2 * m 4 + m 3 * m 3 in let A01 := m 2 * m 3 + m 1 * m 4 in
-    let A02 := m 1 * m 3 + m 2 * m 2 in let A11 := m 0 * m 4 + m 2 * m 2 in
-    let A12 := m 1 * m 2 + m 0 * m 3 in let A22 := m 0 * m 2 + m 1 * m 1 in
-    let T := m 0 * A00 + m 1 * A01 + m 2 * A02 in
+    let A00 := mabs px 2 * mabs px 4 + mabs px 3 * mabs px 3 in
+    let A01 := mabs px 2 * mabs px 3 + mabs px 1 * mabs px 4 in
+    let A02 := mabs px 1 * mabs px 3 + mabs px 2 * mabs px 2 in
+    let A11 := mabs px 0 * mabs px 4 + mabs px 2 * mabs px 2 in
+    let A12 := mabs px 1 * mabs px 2 + mabs px 0 * mabs px 3 in
+    let A22 := mabs px 0 * mabs px 2 + mabs px 1 * mabs px 1 in
+    let T := mabs px 0 * A00 + mabs px 1 * A01 + mabs px 2 * A02 in
     Some (T / Qabs d,
-          [(A00 * pa 0 + A01 * pa 1 + A02 * pa 2) / Qabs d;
-           (A01 * pa 0 + A11 * pa 1 + A12 * pa 2) / Qabs d;
-           (A02 * pa 0 + A12 * pa 1 + A22 * pa 2) / Qabs d])
+          [(A00 * pabs px 0 + A01 * pabs px 1 + A02 * pabs px 2) / Qabs d;
+           (A01 * pabs px 0 + A11 * pabs px 1 + A12 * pabs px 2) / Qabs d;
+           (A02 * pabs px 0 + A12 * pabs px 1 + A22 * pabs px 2) / Qabs d])
   | _ => None
   end.
 
@@ -135,10 +155,18 @@ Definition cmp_radius (N : nat) (px : list (pixel Q)) (obs : list Q) : nat :=
     if Qle_bool kd kd_limit then
       if list_all2 (fun cr o => Qle_bool (Qabs (fst cr - o)) (qtol * (1 + kd) * (1 + snd cr)))
                    (combine cs rows) obs
-      then 0 else 2
-    else 1
-  | _, _ => 1
+      then 0%nat else 2%nat
+    else 1%nat
+  | _, _ => 1%nat
   end.
+
+Definition valid_ok (N : nat) (px : list (pixel Q)) (obs : bool) : bool :=
+  if has_weight px then
+    match tol_rows N px with
+    | Some (kd, _) => if Qle_bool kd kd_limit then obs else true
+    | None => true
+    end
+  else negb obs.
 
 Definition column (M : list (list Q)) (r : nat) : list Q := map (fun row => nth r row 0) M.
 
@@ -153,11 +181,13 @@ Definition vresult (c : vcase) : bool * list nat :=
       && wfb (vc_h c) (vc_w c) (vc_IM c)
       && match vc_W c with Some Wt => wfb (vc_h c) (vc_w c) Wt | None => true end
       && img_close (fold_image 0 (fadd Qops) g X) (vc_Q c)
-      && bool_list_eqb (distr_valid Qops sq (vc_meth c) g (vc_sin c) (vc_W c)) (o_valid (vc_obs c)) in
+      && list_all2 (fun r ob => valid_ok (g_N g) (pixels Qops sq (vc_meth c) g
+                                               (QW Qops sq g (vc_sin c) (vc_W c)) (fun _ _ => 0) r) ob)
+                   (seq 0 (g_rmax g + 1)%nat) (o_valid (vc_obs c)) in
     (ok, map (fun r => cmp_radius (g_N g)
                          (distr_pixels Qops sq (vc_meth c) g (vc_sin c) (vc_W c) (vc_IM c) r)
                          (column (vc_cos c) r))
-             (seq 0 (g_rmax g + 1)))
+             (seq 0 (g_rmax g + 1)%nat))
   | _ => (false, [])
   end.
 
